@@ -69,6 +69,10 @@ type Client struct {
 	LastSendAt     time.Time
 	readEv         string
 	MaxOutstanding int // 0 = unlimited pipelining
+	// LeaveAfter > 0: the client closes its connection as soon as it has read this many replies, whatever it has
+	// sent since (a client that goes away in the middle of a pipeline). Left reports that it did.
+	LeaveAfter int
+	Left       bool
 	// Gate, when set, must allow request idx to be sent (global sequencing); Kick re-evaluates it.
 	Gate func(c *Client, idx int) bool
 }
@@ -126,7 +130,7 @@ func (c *Client) outstanding() int {
 
 // pump schedules the next send event if there is something to send.
 func (c *Client) pump() {
-	if !c.Connected || c.EOF || c.Reset || c.Paused {
+	if !c.Connected || c.EOF || c.Reset || c.Paused || c.Left {
 		return
 	}
 	if len(c.chunks) == 0 {
@@ -167,7 +171,7 @@ func (c *Client) pump() {
 func (c *Client) seqNext() int { c.seq++; return c.seq }
 
 func (c *Client) sendChunk(s *Sent, first bool) {
-	if c.EOF || c.Reset || len(c.chunks) == 0 {
+	if c.EOF || c.Reset || c.Left || len(c.chunks) == 0 {
 		return
 	}
 	if first {
@@ -222,6 +226,12 @@ func (c *Client) consume(b []byte) {
 		if c.OnReply != nil {
 			c.OnReply(c, s)
 		}
+		if c.LeaveAfter > 0 && c.Replies >= c.LeaveAfter && !c.Left {
+			c.Left = true
+			c.rt.Logf("client %s leaves after %d replies with %d requests unanswered", c.Name, c.Replies, len(c.Sent)-c.Replies)
+			c.End.ActorClose()
+			return
+		}
 	}
 	if len(c.chunks) == 0 {
 		c.pump()
@@ -236,7 +246,7 @@ func (c *Client) Settled() bool {
 	if !c.Connected {
 		return false
 	}
-	if c.EOF || c.Reset {
+	if c.EOF || c.Reset || c.Left {
 		return true
 	}
 	return c.AllSent() && c.Replies == len(c.Sent)
